@@ -5,25 +5,6 @@ use crate::c11::*;
 
 /// Test generated for harness `c11::c11_plain_nan_max_n2` 
 ///
-/// Check for `cover`: "NaN next to a number"
-
-#[test]
-fn kani_concrete_playback_c11_plain_nan_max_n2_10954943466134706913() {
-    let concrete_vals: Vec<Vec<u8>> = vec![
-        // -1
-        vec![255, 255, 255, 255],
-        // 0
-        vec![0],
-        // 2
-        vec![2, 0, 0, 0],
-        // 1
-        vec![1],
-    ];
-    kani::concrete_playback_run(concrete_vals, c11_plain_nan_max_n2);
-}
-
-/// Test generated for harness `c11::c11_plain_nan_max_n2` 
-///
 /// Check for `assertion`: ""float max ignores NaN wherever it stands (greatest non-NaN element)""
 
 #[test]
@@ -37,6 +18,25 @@ fn kani_concrete_playback_c11_plain_nan_max_n2_16094515052029481719() {
         vec![254, 255, 255, 255],
         // 0
         vec![0],
+    ];
+    kani::concrete_playback_run(concrete_vals, c11_plain_nan_max_n2);
+}
+
+/// Test generated for harness `c11::c11_plain_nan_max_n2` 
+///
+/// Check for `cover`: "NaN next to a number"
+
+#[test]
+fn kani_concrete_playback_c11_plain_nan_max_n2_10954943466134706913() {
+    let concrete_vals: Vec<Vec<u8>> = vec![
+        // -1
+        vec![255, 255, 255, 255],
+        // 0
+        vec![0],
+        // 2
+        vec![2, 0, 0, 0],
+        // 1
+        vec![1],
     ];
     kani::concrete_playback_run(concrete_vals, c11_plain_nan_max_n2);
 }
